@@ -30,12 +30,17 @@ SPEC = {'classes': [
     {'name': 'B', 'bases': ['A'], 'params': [('x', 'int'), ('y', 'int')]},
     {'name': 'E', 'kind': 'enum', 'members': ['red', 'true']},
     {'name': 'S', 'kind': 'userstring'},
+    # a class written as a scalar with a recogniser of its own (the parsed-class recipe): under its own tag the hook
+    # is shown the scalar as it would be without the tag - on a copy, the node in the document stays as it is
+    {'name': 'V', 'kind': 'userstring', 'hooks': {'recognize': [['require_scalar', ['str']]]}},
+    {'name': 'W', 'params': [('x', 'int')], 'hooks': {'recognize': [['require_attr', 'x', 'int']]}},
     {'name': 'Probe', 'params': [('zz', 'int')]},
 ], 'root': ('cls', 'Probe')}
 
 TYPES = ['int', 'str', 'float', 'bool', 'none', 'date', 'path', 'any', 'buf', ('opt', 'int'), ('union', ['int', 'str']),
          ('list', 'int'), ('dict', 'str', 'int'), ('cls', 'E'), ('cls', 'S'), ('cls', 'A'), ('cls', 'B'),
-         ('list', ('cls', 'A')), ('union', [('cls', 'A'), 'int']), ('union', ['bool', ('cls', 'E')]), ('list', 'any')]
+         ('list', ('cls', 'A')), ('union', [('cls', 'A'), 'int']), ('union', ['bool', ('cls', 'E')]), ('list', 'any'),
+         ('cls', 'V'), ('union', [('cls', 'V'), 'float']), ('list', ('cls', 'V')), ('cls', 'W'), ('union', [('cls', 'W'), ('cls', 'V')])]
 VALUES = [1, 0, 'x', '1', True, False, None, 1.0, 1.5, 'true', 31]
 SCALAR_TYPES = {'str': str, 'int': int, 'float': float, 'bool': bool, 'none': None}
 TAGS = {'str': 'str', 'int': 'int', 'float': 'float', 'bool': 'bool', 'none': 'null'}
@@ -53,7 +58,10 @@ ATTR_VALUES = docs.ONE_PER_KIND + [S('int', '0x1F'), S('int', '0'), S('float', '
                                    M([(S('str', 'x'), S('int', '1')), (S('str', 'y'), S('int', '1'))], '!A'),
                                    M([(S('str', 'x'), S('int', '1'))], '!B'), M([(S('str', 'x'), S('int', '1'))], '!Unknown'),
                                    M([(S('str', 'x'), S('str', 'no'))]), M([(S('str', 'k'), S('int', '1'))]),
-                                   S('!E', 'red'), S('!S', 'a')]
+                                   S('!E', 'red'), S('!S', 'a'), S('!V', 'a'), S('!V', '1.2'), S('!V', 'true'), S('!V', ''),
+                                   S('!S', '1.2'), S('!E', 'true'), S('!E', '1'), Q([S('!V', '1.2'), S('!V', 'a')]),
+                                   M([(S('str', 'x'), S('int', '1'))], '!W'), M([(S('str', 'x'), S('str', 'no'))], '!W'),
+                                   M([(S('str', 'y'), S('!V', '1'))], '!W')]
 
 
 def universe():
@@ -200,23 +208,34 @@ def calls():
             yield 'require_attribute_value_not', (name, v)
 
 
+DEEP_TYPES = TYPES + [('opt', ('cls', 'A')), ('dict', 'str', ('list', 'int')), ('list', ('union', ['int', 'str'])),
+                      ('dict', 'str', ('cls', 'A')), ('list', ('cls', 'E')), ('dict', ('cls', 'S'), 'int'),
+                      ('union', [('cls', 'A'), ('dict', 'str', 'int')]), ('union', [('list', 'int'), 'str', 'none']),
+                      ('list', ('list', 'int')), ('union', [('cls', 'E'), ('cls', 'S')]), ('union', ['bool', 'buf', 'int'])]
+
+
+def deep_universe(case, T, tier):
+    """{a: V} and {b: 1, a: V} for every V of D(T): the valid trees of T, every single-point mutation of them (with
+    every tag of the tag alphabet at every node) and every tree of <= 3 nodes - the document universe of the load
+    checks, so that 'recognisable as that type by the rules the loader itself uses' is compared with the reference
+    recognition on the same inputs as C02"""
+    spec = dict(SPEC, root=T)
+    tags = docs.tag_alphabet([c['name'] for c in SPEC['classes']], small=(tier == 'quick'))
+    seen = set()
+    for kind, site, t in loadcase.document_set(spec, case, tier, tags=tags, tiny_n=3 if tier == 'quick' else 4, k=2):
+        for wrapped in (M([(S('str', 'a'), t)]), M([(S('str', 'b'), S('int', '1')), (S('str', 'a'), t)])):
+            n = norm_tree(wrapped)
+            if n not in seen:
+                seen.add(n)
+                yield n
+
+
 def units(tier):
-    return list(range(len(list(calls()))))
+    return list(range(len(list(calls())))) + [('deep', i) for i in range(len(DEEP_TYPES))]
 
 
-_CASE = None
-
-
-def run_unit(unit, tier):
-    global _CASE, _U
-    res = core.Result()
-    if _CASE is None:
-        _CASE = loadcase.Case(SPEC)
-        _U = universe()
-    case = _CASE
-    un = get_unknown(case)
-    helper, args = list(calls())[unit]
-    for n in _U:
+def eval_node(case, un, helper, args, n, res):
+    if True:
         res.states += 1
         res.transitions += 1
         want = predicate(case, helper, args, n)
@@ -232,7 +251,7 @@ def run_unit(unit, tier):
             if not isinstance(out, str):
                 res.violation('C16:%s:raises-%s' % (helper, type(out).__name__),
                               '%s%r on %s raised %s: %s' % (helper, args, docs_show(n), type(out).__name__, out), payload)
-            continue
+            return
         out, before, after = call(case, un, helper, args, n)
         res.traces += 1
         payload = {'helper': helper, 'args': list(args), 'node': n}
@@ -241,7 +260,7 @@ def run_unit(unit, tier):
             res.violation('C16:%s:modifies-node' % helper, desc + ' modified the node: %s' % docs_show(after), payload)
         if not isinstance(out, str):
             res.violation('C16:%s:raises-%s' % (helper, type(out).__name__), desc + ' raised %s: %s' % (type(out).__name__, out), payload)
-            continue
+            return
         res.hist[helper + ':' + out] += 1
         if out == 'accept':
             res.nontrivial += 1
@@ -250,6 +269,27 @@ def run_unit(unit, tier):
         if (out == 'accept') != want:
             res.violation('C16:%s:%s-but-documented-%s' % (helper, out, 'accept' if want else 'reject'),
                           desc + ': %s, the documented condition says %s' % (out, 'accept' if want else 'reject'), payload)
+
+
+_CASE = None
+
+
+def run_unit(unit, tier):
+    global _CASE, _U
+    res = core.Result()
+    if _CASE is None:
+        _CASE = loadcase.Case(SPEC)
+        _U = universe()
+    case = _CASE
+    un = get_unknown(case)
+    deep = None
+    if isinstance(unit, tuple):
+        deep = DEEP_TYPES[unit[1]]
+        helper, args = 'require_attribute', ('a', deep)
+    else:
+        helper, args = list(calls())[unit]
+    for n in (_U if deep is None else deep_universe(case, deep, tier)):
+        eval_node(case, un, helper, args, n, res)
     return res
 
 
